@@ -568,6 +568,7 @@ func (q *BufferedChannelQueue[T]) loadFromPool() {
 		if q.isClosed.Get() {
 			break
 		}
+		verifPoint("bcq.loader.afterClosedCheck")
 
 		q.lock.Lock()
 		// Close() might have happened between the check above and taking the lock
@@ -585,6 +586,7 @@ func (q *BufferedChannelQueue[T]) loadFromPool() {
 			if pollErr != nil {
 				break
 			}
+			verifPoint("bcq.loader.polled")
 
 			offerErr = q.blockingQueue.Offer(val)
 			// If failed, unshift it back
@@ -607,6 +609,7 @@ func (q *BufferedChannelQueue[T]) notifyWorkers() {
 	if q.isClosed.Get() {
 		return
 	}
+	verifPoint("bcq.notify.beforeSend")
 
 	q.loadWorkerCh.Offer(1)
 	q.freeNodeWorkerCh.Offer(1)
@@ -659,6 +662,7 @@ func (q *BufferedChannelQueue[T]) GetFreeNodeHookPoolIntervalDuration() time.Dur
 // GetChannel Get Channel(for Selecting channels usages)
 func (q *BufferedChannelQueue[T]) GetChannel() chan T {
 	q.notifyWorkers()
+	verifPoint("bcq.getchannel.afterNotify")
 
 	return q.blockingQueue
 }
@@ -686,7 +690,9 @@ func (q *BufferedChannelQueue[T]) Close() {
 	defer q.lock.Unlock()
 
 	q.isClosed.Set(true)
+	verifPoint("bcq.close.afterFlag")
 	close(q.loadWorkerCh)
+	verifPoint("bcq.close.afterLoadCh")
 	close(q.blockingQueue)
 }
 
@@ -730,6 +736,7 @@ func (q *BufferedChannelQueue[T]) Take() (T, error) {
 	if q.isClosed.Get() {
 		return *new(T), ErrQueueIsClosed
 	}
+	verifPoint("bcq.take.afterClosedCheck")
 
 	q.notifyWorkers()
 
@@ -741,6 +748,7 @@ func (q *BufferedChannelQueue[T]) TakeWithTimeout(timeout time.Duration) (T, err
 	if q.isClosed.Get() {
 		return *new(T), ErrQueueIsClosed
 	}
+	verifPoint("bcq.takewithtimeout.afterClosedCheck")
 
 	q.notifyWorkers()
 
@@ -751,6 +759,7 @@ func (q *BufferedChannelQueue[T]) TakeWithTimeout(timeout time.Duration) (T, err
 func (q *BufferedChannelQueue[T]) Offer(val T) error {
 	q.lock.Lock()
 	defer q.lock.Unlock()
+	verifPoint("bcq.offer.locked")
 
 	if q.isClosed.Get() {
 		return ErrQueueIsClosed
@@ -788,6 +797,7 @@ func (q *BufferedChannelQueue[T]) Poll() (T, error) {
 	if q.isClosed.Get() {
 		return *new(T), ErrQueueIsClosed
 	}
+	verifPoint("bcq.poll.afterClosedCheck")
 
 	q.notifyWorkers()
 
